@@ -10,7 +10,7 @@ import time
 import tlc
 from drivers import realproc as rp
 
-PHASES = ["idle", "head_partial", "app_running", "resp_partial", "keepalive_idle"]
+PHASES = ["idle", "head_partial", "head_partial_late", "app_running", "resp_partial", "keepalive_idle"]
 
 
 class Client(threading.Thread):
@@ -20,7 +20,7 @@ class Client(threading.Thread):
         self.graceful = graceful
         self.ready = threading.Event()
         self.outcome = "nothing"
-        self.started = phase in ("head_partial", "app_running", "resp_partial")
+        self.started = phase in ("head_partial", "head_partial_late", "app_running", "resp_partial")
         self.err = None
 
     def path(self):
@@ -53,12 +53,13 @@ class Client(threading.Thread):
                 time.sleep(0.3)
                 self.outcome = "nothing"
                 return
-            if self.phase == "head_partial":
+            if self.phase in ("head_partial", "head_partial_late"):
                 s.sendall(b"GET /pid HTTP/1.1\r\nHo")
                 time.sleep(0.3)          # let the worker accept and start reading
                 self.ready.set()
                 self.go.wait()
-                time.sleep(0.4)
+                # the rest of the head arrives shortly after the signal / after the worker has closed its listeners
+                time.sleep(0.4 if self.phase == "head_partial" else 1.7)
                 s.sendall(b"st: h\r\nConnection: close\r\n\r\n")
                 st, body, info = rp.read_response(s)
                 self.outcome = "complete" if (st == 200 and info["complete"]) else self.classify(info, body)
@@ -112,8 +113,9 @@ class Client(threading.Thread):
         return "nothing"
 
 
-def run_shutdown(wk, sig, phases, appfin="within", graceful=3, bind="tcp", slack_ms=2500):
-    """-> (trace, meta)"""
+def run_shutdown(wk, sig, phases, appfin="within", graceful=3, bind="tcp", slack_ms=2500, pre=()):
+    """-> (trace, meta).  pre: signals sent to the master (0.6 s apart) after the clients are in their phase and
+    before the final signal, e.g. ("TTIN", "TTOU") retires the busy worker first"""
     nworkers = len(phases) if wk == "sync" else 1
     threads = max(2, len(phases)) if wk == "gthread" else None
     s = rp.Server(wk, workers=nworkers, threads=threads, bind=bind, pidfile=True,
@@ -130,6 +132,12 @@ def run_shutdown(wk, sig, phases, appfin="within", graceful=3, bind="tcp", slack
                 time.sleep(0.15)       # one connection per sync worker
         for c in clients:
             c.ready.wait(10)
+        allpids = set(wpids)
+        for name in pre:
+            s.signal(getattr(signal, "SIG" + name))
+            time.sleep(0.6)
+            allpids |= set(s.workers())
+        wpids = sorted(allpids)
         t0 = time.time()
         s.signal({"TERM": signal.SIGTERM, "INT": signal.SIGINT, "QUIT": signal.SIGQUIT}[sig])
         go.set()
@@ -153,7 +161,7 @@ def run_shutdown(wk, sig, phases, appfin="within", graceful=3, bind="tcp", slack
                    "pidfile": os.path.exists(s.pidfile), "sockfile": bool(s.sockpath and os.path.exists(s.sockpath))})
         tr = {"sig": sig, "graceful_ms": graceful * 1000, "slack_ms": slack_ms, "wk": wk, "ev": ev}
         return tr, {"wk": wk, "sig": sig, "phases": phases, "appfin": appfin, "bind": bind, "elapsed_ms": elapsed,
-                    "log": s.errlog()[-600:]}
+                    "pre": list(pre), "log": s.errlog()[-600:]}
     finally:
         s.cleanup()
 
@@ -162,16 +170,20 @@ def plan_for(ctx):
     if ctx.quick:
         return [("sync", "TERM", ["app_running", "head_partial"], "within", "tcp"),
                 ("gthread", "TERM", ["app_running", "resp_partial", "keepalive_idle"], "within", "unix"),
-                ("gevent", "TERM", ["app_running", "head_partial", "resp_partial"], "within", "tcp"),
-                ("sync", "QUIT", ["app_running"], "within", "unix")]
+                ("gevent", "TERM", ["app_running", "head_partial", "head_partial_late", "resp_partial"], "within", "tcp"),
+                ("sync", "QUIT", ["app_running"], "within", "unix"),
+                ("sync", "TERM", ["app_running"], "overrun", "tcp", ("TTIN", "TTOU"))]
     plan = []
     for wk in ("sync", "gthread", "gevent", "eventlet"):
         for bind in ("tcp", "unix"):
-            plan.append((wk, "TERM", ["idle", "head_partial", "app_running", "resp_partial", "keepalive_idle"], "within", bind))
+            plan.append((wk, "TERM", ["idle", "head_partial", "head_partial_late", "app_running", "resp_partial", "keepalive_idle"],
+                         "within", bind))
         plan.append((wk, "TERM", ["app_running", "resp_partial"], "overrun", "tcp"))
         plan.append((wk, "TERM", ["app_running"], "never", "unix"))
         plan.append((wk, "QUIT", ["app_running", "keepalive_idle"], "within", "tcp"))
         plan.append((wk, "INT", ["app_running", "idle"], "never", "unix"))
+        plan.append((wk, "TERM", ["app_running"], "overrun", "tcp", ("TTIN", "TTOU")))
+        plan.append((wk, "QUIT", ["app_running"], "never", "tcp", ("TTIN", "TTOU")))
     return plan
 
 
@@ -181,12 +193,13 @@ def worker_side(ctx):
     results = [None] * len(plan)
 
     def runner(i):
-        wk, sig, phases, appfin, bind = plan[i]
+        wk, sig, phases, appfin, bind = plan[i][:5]
+        pre = plan[i][5] if len(plan[i]) > 5 else ()
         try:
-            results[i] = run_shutdown(wk, sig, phases, appfin, graceful=3, bind=bind)
+            results[i] = run_shutdown(wk, sig, phases, appfin, graceful=3, bind=bind, pre=pre)
         except Exception as e:   # noqa
             results[i] = e
-    par = 4
+    par = 5
     for base in range(0, len(plan), par):
         ths = [threading.Thread(target=runner, args=(i,)) for i in range(base, min(base + par, len(plan)))]
         [t.start() for t in ths]
